@@ -196,6 +196,19 @@ func (qt *quotaTopology) checkParentQuotaInfo(quotaName, parentName string) erro
 		if !parentInfo.IsParent {
 			return fmt.Errorf("%v has parentName %v but the parentQuotaInfo's IsParent is false", quotaName, parentName)
 		}
+		// the parent must not be the quota itself or one of its descendants: following the
+		// parent links from the new parent has to reach the root without meeting the quota.
+		ancestor := parentName
+		for i := 0; ancestor != extension.RootQuotaName && i <= len(qt.quotaInfoMap); i++ {
+			if ancestor == quotaName {
+				return fmt.Errorf("%v has parentName %v which makes %v an ancestor of itself", quotaName, parentName, quotaName)
+			}
+			ancestorInfo, exist := qt.quotaInfoMap[ancestor]
+			if !exist {
+				break
+			}
+			ancestor = ancestorInfo.ParentName
+		}
 	}
 	return nil
 }
